@@ -1,6 +1,6 @@
 (* C12 - definitions used by the correspondence run and by the precedence statements (no proofs). *)
 From Coq Require Import List String Ascii ZArith Bool Arith.
-Require Import MD.Select.Syntax MD.Select.Model.
+Require Import MD.Select.Syntax MD.Select.Model MD.Select.Types.
 Import ListNotations.
 Local Open Scope string_scope.
 
@@ -73,7 +73,7 @@ Definition order_conventional (cfg : config) : bool :=
 (* ---- correspondence entry points *)
 Definition nth_topo (topos : list (list atom)) (i : nat) : list atom := nth i topos [].
 
-(* code: 32 = the as-found model rejects the string; 1 = differs from the as-found model, 2 = differs from the model with the repaired single-literal
+(* code: 64 = the compiled predicate passes the static check (can never raise TypeError); 32 = the as-found model rejects the string; 1 = differs from the as-found model, 2 = differs from the model with the repaired single-literal
    test, 4 = differs from both under the conventional operator order, 8 = the model has no answer
    (string or pattern outside the modelled domain) *)
 Definition out_of_model (o : outcome) : bool :=
@@ -88,18 +88,34 @@ Definition select_pair (cfg : config) (atoms : list atom) (ts : list token) : ou
   | _ => let o := run_compiled cfg atoms (compile_parsed cfg false oe) in (o, o)
   end.
 
+(* the static check on the as-found compilation of a token list *)
+Definition tokens_well_typed (cfg : config) (ts : list token) : bool :=
+  match compile_tokens cfg false ts with Some p => well_typed p | None => false end.
+
+(* select_pair plus the static check, sharing the parse and the compilation
+   (Proofs.select_pair_t_correct: = (select_pair, tokens_well_typed)) *)
+Definition select_pair_t (cfg : config) (atoms : list atom) (ts : list token) : outcome * outcome * bool :=
+  let oe := parse_all cfg ts in
+  let p := compile_parsed cfg false oe in
+  let wt := match p with Some q => well_typed q | None => false end in
+  match oe with
+  | Some (ELit _) => (run_compiled cfg atoms p, run_compiled cfg atoms (compile_parsed cfg true oe), wt)
+  | _ => let o := run_compiled cfg atoms p in (o, o, wt)
+  end.
+
 Definition case_code (cfg : config) (topos : list (list atom)) (c : nat * string * outcome) : nat :=
   let '(ti, s, impl) := c in
   let atoms := nth_topo topos ti in
   let cc := conventional cfg in
   match lex cfg s, lex cc s with
   | Some ts, Some ts' =>
-      let '(a, b) := select_pair cfg atoms ts in
+      let '(a, b, wt) := select_pair_t cfg atoms ts in
       let '(c1, c2) := select_pair cc atoms ts' in
       (if outcome_eqb a impl then 0 else 1) + (if outcome_eqb b impl then 0 else 2)
       + (if outcome_eqb c1 impl || outcome_eqb c2 impl then 0 else 4)
       + (if out_of_model a || out_of_model c1 then 8 else 0)
       + (match a with Rejected => 32 | _ => 0 end)
+      + (match a with Rejected => 0 | _ => if wt then 64 else 0 end)
   | _, _ => 15
   end.
 
